@@ -299,12 +299,12 @@ Proof.
 Qed.
 
 (* ------------------------------------------------------------------ the certificate read off the record *)
-Lemma nth_tri_cert : forall T order n, (n < length order)%nat ->
-  nth_tri (cert_of T order) n = nth (nth n order 0%nat) T tri0.
+Lemma nth_tri_cert : forall T B order n, (n < length order)%nat ->
+  nth_tri (cert_of T B order) n = nth (nth n order 0%nat) T tri0.
 Proof.
-  intros T order n Hn. unfold nth_tri, cert_of.
-  rewrite (nth_indep _ _ ((fun o : nat => (nth o T tri0, box0)) 0%nat)) by (rewrite map_length; exact Hn).
-  rewrite (map_nth (fun o : nat => (nth o T tri0, box0))). reflexivity.
+  intros T B order n Hn. unfold nth_tri, cert_of.
+  rewrite (nth_indep _ _ ((fun o : nat => (nth o T tri0, nth o B box0)) 0%nat)) by (rewrite map_length; exact Hn).
+  rewrite (map_nth (fun o : nat => (nth o T tri0, nth o B box0))). reflexivity.
 Qed.
 
 Lemma combine_seq_In : forall (A : Type) (l : list A) (d : A) k p n, In (p, n) (combine l (seq k (length l))) ->
@@ -332,27 +332,28 @@ Proof.
   specialize (H o). rewrite Uo in H. simpl in H. apply H. apply in_seq. lia.
 Qed.
 
-Theorem post_correct_dual : forall order_of shift S points v S' vs ps ed cr tolS pts T,
-  shifted_vertices shift S points v = Ok (S', vs) ->
-  pvor S' vs (ridge_vertices v) -> trivalent_ok S' vs (ridge_vertices v) = true ->
-  dual_ok S' tolS shift pts vs (ridge_vertices v) T = true ->
-  post_process order_of shift S points v = Ok (S', (ps, ed, cr)) ->
+(* the assembly of check_dual from the graph-level facts (shared by the exact and the index-level periodicity) *)
+Lemma post_dual_generic : forall S' vs rv order ps ed cr tolS shift pts T B,
+  let es := pbc_edges S' vs rv in
   let L := mkLattice S' ps ed cr in
-  let order := order_of (edge_ends (pbc_edges S' vs (ridge_vertices v))) in
-  check_dual S' tolS shift pts (cert_of T order) L (seq 0 (length order)) = true.
+  reindex vs order es = Ok (ps, ed, cr) ->
+  wf_lattice L = true -> NoDup order -> length order = nV L ->
+  (forall n, (n < nV L)%nat ->
+     (nth n order 0 < length vs)%nat /\ pos_at L n = nth (nth n order 0%nat) vs (0, 0) /\
+     in_unit S' (pos_at L n) = true /\
+     count_ends L n = length (ridges_at (Z.of_nat (nth n order 0%nat)) rv)) ->
+  (forall i i', (i < nE L)%nat -> (i' < nE L)%nat -> i <> i' ->
+     ledge L i <> ledge L i' /\ ledge L i <> rev_edge (ledge L i')) ->
+  (2 * nE L = 3 * nV L)%nat ->
+  (forall e, In e es -> ~ is_loop e) ->
+  (forall e, In e es -> exists s s', (s < 3)%nat /\ (s' < 3)%nat /\
+     side_shared (nth (fst (fst e)) T tri0) (nth (snd (fst e)) T tri0) (snd e) s s') ->
+  d3_ok S' vs T = true -> d4_ok S' tolS shift pts vs T = true ->
+  check_dual S' tolS shift pts (cert_of T B order) L (seq 0 (length order)) = true.
 Proof.
-  intros order_of shift S points v S' vs ps ed cr tolS pts T Hsh HP Htri Hdual Hpost L order.
-  destruct (post_correct_graph _ _ _ _ _ _ _ _ _ _ Hsh HP Hpost) as (Hwf & HNo & Hlen & _ & Hv & _ & _ & _ & Hdist).
-  destruct (post_correct_trivalent _ _ _ _ _ _ _ _ _ _ Hsh HP Htri Hpost) as (_ & H2E).
-  cbv zeta in Hwf, HNo, Hlen, Hv, Hdist, H2E. fold L in Hwf, Hlen, Hv, Hdist, H2E. fold order in HNo, Hlen, Hv.
-  destruct (post_process_inv _ _ _ _ _ _ _ _ _ Hpost) as (vs0 & Hsh0 & _ & Hre).
-  rewrite Hsh in Hsh0. injection Hsh0 as <-. cbv zeta in Hre. fold order in Hre.
-  set (rv := ridge_vertices v) in *. set (es := pbc_edges S' vs rv) in *.
+  intros S' vs rv order ps ed cr tolS shift pts T B es L Hre Hwf HNo Hlen Hv Hdist H2E Hnl Hsh Hd3 Hd4.
   destruct (reindex_spec _ _ _ _ _ _ Hre) as (_ & Hmem & _ & Lps & Led & Ecr & Hidx).
-  unfold dual_ok in Hdual. rewrite !andb_true_iff in Hdual.
-  destruct Hdual as ((((HlT & Hd1) & Hd2) & Hd3) & Hd4). apply Nat.eqb_eq in HlT.
-  pose proof (pv_S _ _ _ HP) as HS.
-  set (C := cert_of T order). set (vt := seq 0 (length order)).
+  set (C := cert_of T B order). set (vt := seq 0 (length order)).
   assert (LC : length C = length order) by (unfold C, cert_of; apply map_length).
   assert (Lvt : length vt = length order) by apply seq_length.
   assert (NV : nV L = length order) by (symmetry; exact Hlen).
@@ -374,8 +375,8 @@ Proof.
   { intros i Hi. destruct (Hidx i Hi) as (B1 & B2 & O1 & O2 & _). cbv zeta in B1, B2, O1, O2. rewrite Lps in B1, B2.
     assert (He : In (nth i es edge0) es) by (apply nth_In; exact Hi).
     split; [exact B1|]. split; [exact B2|]. split.
-    { intro E. apply (pbc_edges_noloop S' vs rv _ HP He). unfold is_loop. rewrite <- O1, <- O2, E. reflexivity. }
-    destruct (pbc_edges_shared_side S' vs rv T _ HP Hd1 Hd2 He) as (s & s' & Hs & Hs' & Hss).
+    { intro E. apply (Hnl _ He). unfold is_loop. rewrite <- O1, <- O2, E. reflexivity. }
+    destruct (Hsh _ He) as (s & s' & Hs & Hs' & Hss).
     exists s, s'. split; [exact Hs|]. split; [exact Hs'|].
     rewrite (GC _ B1), (GC _ B2), O1, O2, (Gcr i Hi). exact Hss. }
   assert (Lcr : length cr = length ed) by (rewrite Ecr, map_length, Led; reflexivity).
@@ -425,4 +426,47 @@ Proof.
   - exact F4.
   - apply Nat.eqb_eq. rewrite LC, <- NV. exact H2E.
   - exact (NoDup_nodup_by _ natpair_eqb (fun x y => proj1 (natpair_eqb_eq x y)) us HNus).
+Qed.
+
+Theorem post_correct_dual : forall order_of shift S points v S' vs ps ed cr tolS pts T B,
+  shifted_vertices shift S points v = Ok (S', vs) ->
+  pvor S' vs (ridge_vertices v) -> trivalent_ok S' vs (ridge_vertices v) = true ->
+  dual_ok S' tolS shift pts vs (ridge_vertices v) T = true ->
+  post_process order_of shift S points v = Ok (S', (ps, ed, cr)) ->
+  let L := mkLattice S' ps ed cr in
+  let order := order_of (edge_ends (pbc_edges S' vs (ridge_vertices v))) in
+  check_dual S' tolS shift pts (cert_of T B order) L (seq 0 (length order)) = true.
+Proof.
+  intros order_of shift S points v S' vs ps ed cr tolS pts T B Hsh HP Htri Hdual Hpost L order.
+  destruct (post_correct_graph _ _ _ _ _ _ _ _ _ _ Hsh HP Hpost) as (Hwf & HNo & Hlen & _ & Hv & _ & _ & _ & Hdist).
+  destruct (post_correct_trivalent _ _ _ _ _ _ _ _ _ _ Hsh HP Htri Hpost) as (_ & H2E).
+  cbv zeta in Hwf, HNo, Hlen, Hv, Hdist, H2E. fold L in Hwf, Hlen, Hv, Hdist, H2E. fold order in HNo, Hlen, Hv.
+  destruct (post_process_inv _ _ _ _ _ _ _ _ _ Hpost) as (vs0 & Hsh0 & _ & Hre).
+  rewrite Hsh in Hsh0. injection Hsh0 as <-. cbv zeta in Hre. fold order in Hre.
+  set (rv := ridge_vertices v) in *. set (es := pbc_edges S' vs rv) in *.
+  unfold dual_ok in Hdual. rewrite !andb_true_iff in Hdual.
+  destruct Hdual as ((((HlT & Hd1) & Hd2) & Hd3) & Hd4). apply Nat.eqb_eq in HlT.
+  pose proof (pv_S _ _ _ HP) as HS.
+  apply (post_dual_generic S' vs rv order ps ed cr tolS shift pts T B Hre Hwf HNo Hlen Hv Hdist H2E).
+  - intros e He. exact (pbc_edges_noloop S' vs rv e HP He).
+  - intros e He. exact (pbc_edges_shared_side S' vs rv T e HP Hd1 Hd2 He).
+  - exact Hd3.
+  - exact Hd4.
+Qed.
+
+(* with a validated Delaunay certificate: "2N vertices and 3N edges" *)
+Corollary post_correct_counts : forall order_of shift S points v S' vs ps ed cr tolS pts T B w,
+  shifted_vertices shift S points v = Ok (S', vs) ->
+  pvor S' vs (ridge_vertices v) -> trivalent_ok S' vs (ridge_vertices v) = true ->
+  dual_ok S' tolS shift pts vs (ridge_vertices v) T = true ->
+  post_process order_of shift S points v = Ok (S', (ps, ed, cr)) ->
+  let L := mkLattice S' ps ed cr in
+  let order := order_of (edge_ends (pbc_edges S' vs (ridge_vertices v))) in
+  check_delaunay S' w pts (cert_of T B order) = true ->
+  nV L = (2 * length pts)%nat /\ nE L = (3 * length pts)%nat.
+Proof.
+  intros order_of shift S points v S' vs ps ed cr tolS pts T B w Hsh HP Htri Hdual Hpost L order Hdel.
+  pose proof (post_correct_dual order_of shift S points v S' vs ps ed cr tolS pts T B Hsh HP Htri Hdual Hpost) as Hd.
+  cbv zeta in Hd. fold L order in Hd.
+  destruct (dual_counts _ _ _ _ _ _ _ _ Hdel Hd) as (H1 & H2 & _). split; assumption.
 Qed.
